@@ -11,6 +11,7 @@ package main
 import (
 	"errors"
 	"fmt"
+	"math/big"
 	"sort"
 	"strings"
 
@@ -702,13 +703,30 @@ type mpath struct {
 	key   string
 }
 
-func genMPath(c *Ctx) *mpath {
+// genMPath builds a path through the library's own deriving constructors (GetAttr, Index,
+// IndexInt, IndexString), often as a sibling of an earlier path of the pool - derived from the
+// same parent object - so that a derivation which disturbs its parent or a sibling shows up as a
+// pool path that no longer matches its model.
+func genMPath(c *Ctx, pool []*mpath) *mpath {
 	n := c.G(4)
 	if c.G(8) == 0 {
 		n = 4 + c.G(2)
 	}
 	m := &mpath{}
 	var keys []string
+	if len(pool) > 0 && c.G(2) == 0 {
+		parent := pool[c.G(len(pool))]
+		cut := len(parent.steps)
+		if cut > 0 && c.G(3) == 0 {
+			cut = c.G(cut + 1)
+		}
+		m.steps = append(m.steps, parent.steps[:cut]...)
+		m.p = parent.p[:cut] // the parent's own storage, as a caller deriving siblings would hold it
+		for _, s := range m.steps {
+			keys = append(keys, s.key())
+		}
+		n = 1 + c.G(2)
+	}
 	for i := 0; i < n; i++ {
 		var s pstep
 		switch c.G(3) {
@@ -720,7 +738,25 @@ func genMPath(c *Ctx) *mpath {
 			s = pstep{kind: 2, name: []string{"a", "#", "é", "é", "k", ""}[c.G(6)]}
 		}
 		m.steps = append(m.steps, s)
-		m.p = append(m.p, s.step())
+		switch s.kind {
+		case 0:
+			m.p = m.p.GetAttr(s.name)
+		case 1:
+			if s.num.Mode == NumInt || (s.num.Mode == NumParse && s.num.Text != "0.5") {
+				bi, _ := new(big.Int).SetString(s.num.Text, 10)
+				m.p = m.p.IndexInt(int(bi.Int64()))
+				s.num = NumDesc{Mode: NumInt, Text: s.num.Text}
+				m.steps[len(m.steps)-1] = s
+			} else {
+				m.p = m.p.Index(s.num.Value())
+			}
+		default:
+			if c.G(2) == 0 {
+				m.p = m.p.IndexString(s.name)
+			} else {
+				m.p = m.p.Index(cty.StringVal(s.name))
+			}
+		}
 		keys = append(keys, s.key())
 	}
 	m.key = strings.Join(keys, "/")
@@ -731,9 +767,10 @@ func simC19PathSets(c *Ctx) {
 	nPaths := 3 + c.G(18)
 	var pool []*mpath
 	for i := 0; i < nPaths; i++ {
-		pool = append(pool, genMPath(c))
+		pool = append(pool, genMPath(c, pool))
 	}
 	c.AddShape(fmt.Sprintf("pathsets pool=%d", nPaths))
+
 	byRender := func(p cty.Path) string {
 		// canonical rendering of a path the library returned, through the model's rules
 		var keys []string
@@ -757,6 +794,14 @@ func simC19PathSets(c *Ctx) {
 		}
 		return strings.Join(keys, "/")
 	}
+	checkPool := func(when string) {
+		for i, mp := range pool {
+			if got := byRender(mp.p); got != mp.key {
+				c.Fail("C19", "path-derivation", "path-derivation", "%s: pool path %d was derived as %s but now reads %s (deriving another path from the same parent disturbed it)", when, i, mp.key, got)
+			}
+		}
+	}
+	checkPool("after deriving the pool")
 	sets := []cty.PathSet{cty.NewPathSet()}
 	models := []map[string]bool{{}}
 	put := func(s cty.PathSet, m map[string]bool) int {
@@ -941,6 +986,7 @@ func simC19PathSets(c *Ctx) {
 			c.Fail("C19", "path-prefix", "path-prefix", "Path(%s).HasPrefix(%s) = %t, want %t", a.key, b.key, hp, wantPrefix)
 		}
 	}
+	checkPool("after the history")
 	c.NonTrivial()
 	_ = sort.Strings
 }
